@@ -483,7 +483,13 @@ TRUSTED = [
 ]
 
 if __name__ == "__main__":
+    import translate_modes
+    from common import source_obligation
     main("C13", [ExpandStream(), CircuitStream(), QueryStream()],
+         source_obligations=[
+             source_obligation("ModesSrc_C13", translate_modes.translate, "ModesSrcProof.v",
+                               ["expand_pins_src_spec", "expand_S_src_is_expand_S", "connect_all_src_is_links",
+                                "get_pin_modes_src_is_pin_modes", "get_pin_basenames_src_is_basenames"])],
          level_text="props/C13.v; the tie (1) expands every library block and random models to 1-5 modes (random order), "
                     "solves with scalar parameters and sweeps, directly and through a solver, and compares every coefficient "
                     "with expand_S of the single-mode matrices of the same parameters; (2) wires circuits of expanded blocks "
